@@ -295,10 +295,10 @@ func main() {
 	}
 	stWf.Labels = wfLabels
 	ctx.RunStream(stWf, wfLines, wfImpl)
-	// C08: the static hypothesis of vm_total_wf_partial (Props/C08VM.lean) — the bytecode checker
+	// C08: the static hypothesis of vm_total_wf (Props/C08VM.lean) — the bytecode checker
 	// safeCheck (data-stack heights, frames, fork discipline) — on every real program: the code
 	// with both whole-code passes off, with the peephole pass off, and fully optimised
-	stSafe := ctx.NewStream("safe", "Gojq.SafeVM.safeCheckView (Model/SafeVM.lean), proved equal to the hypothesis safeCheck of vm_total_wf_partial (Props/C08VM.lean)",
+	stSafe := ctx.NewStream("safe", "Gojq.SafeVM.safeCheckView (Model/SafeVM.lean + Model/SafeVM2.lean, both layers), proved equal to the hypothesis safeCheck of vm_total_wf (Props/C08VM.lean)",
 		"every instruction list of the codeops/tailrec streams (no pass, tail-call pass only, both passes): the implementation's answer is the constant `safe`; distinct = 1 when the checker accepts all of them")
 	var safeLines, safeImpl, safeLabels []string
 	for i := range codeLines {
